@@ -151,6 +151,15 @@ pub fn run(ctx: &Ctx) -> i32 {
                     acc.inc("signed_envelopes");
                     acc.nontrivial(&(ai, bi, signers, meta));
                     check_all(&mut acc, &e, &ids, signers, "plain", &|| cid("asis"), true);
+                    // add_signatures / add_signatures_opt = folding add_signature (deterministic schemes only: compare by verdicts)
+                    if !meta && signers != 0 {
+                        let sk: Vec<&dyn Signer> = (0..3).filter(|i| signers >> i & 1 == 1).map(|i| &ids[i].sk as &dyn Signer).collect();
+                        if ids.iter().take(3).all(|id| id.opts.is_none()) {
+                            if let Ok(v) = catch(|| base.add_signatures(&sk)) { check_all(&mut acc, &v, &ids, signers, "add_signatures", &|| cid("add_signatures"), false) }
+                        }
+                        let with_opts: Vec<(&dyn Signer, Option<SigningOptions>, Option<SignatureMetadata>)> = (0..3).filter(|i| signers >> i & 1 == 1).map(|i| (&ids[i].sk as &dyn Signer, ids[i].opts.clone(), None)).collect();
+                        if let Ok(v) = catch(|| base.add_signatures_opt(&with_opts)) { check_all(&mut acc, &v, &ids, signers, "add_signatures_opt", &|| cid("add_signatures_opt"), false) }
+                    }
                     // later additions
                     check_all(&mut acc, &e.add_assertion("later", "added"), &ids, signers, "plain", &|| cid("later-assertion"), false);
                     // one key leaving TWO valid signatures (a plain one and one with metadata): thresholds count signers, not signatures
